@@ -800,6 +800,51 @@ class Translator:
             return f"{ind}Out.raise {e} {lean_str(ast.unparse(exc) if exc is not None else 're-raise')}"
         raise Unsupported("statement: " + type(s).__name__)
 
+    def call_order(self):
+        """the names of the calls of the function body in the order in which Python makes them along the source text (inner
+        calls before the call they are arguments of; statements, branches and loop bodies in textual order; nested function
+        definitions and lambdas, which run later or never, are skipped).  The `let`-inlined terms do not say WHEN an assigned
+        call runs; this list does, so a theorem can pin the order where it matters (§0.9)."""
+        out = []
+
+        def expr(e):
+            if e is None or isinstance(e, (ast.Lambda, ast.FunctionDef, ast.AsyncFunctionDef, ast.ClassDef)):
+                return
+            if isinstance(e, ast.Call):
+                expr(e.func)
+                for a in e.args:
+                    expr(a)
+                for k in e.keywords:
+                    expr(k.value)
+                out.append(ast.unparse(e.func))
+                return
+            for c in ast.iter_child_nodes(e):
+                expr(c)
+
+        def stmts(body):
+            for st in body:
+                if isinstance(st, (ast.FunctionDef, ast.AsyncFunctionDef, ast.ClassDef, ast.Import, ast.ImportFrom)):
+                    continue
+                if isinstance(st, ast.If):
+                    expr(st.test); stmts(st.body); stmts(st.orelse)
+                elif isinstance(st, (ast.For, ast.AsyncFor)):
+                    expr(st.iter); stmts(st.body); stmts(st.orelse)
+                elif isinstance(st, ast.While):
+                    expr(st.test); stmts(st.body); stmts(st.orelse)
+                elif isinstance(st, (ast.With, ast.AsyncWith)):
+                    for it in st.items:
+                        expr(it.context_expr)
+                    stmts(st.body)
+                elif isinstance(st, ast.Try):
+                    stmts(st.body)
+                    for h in st.handlers:
+                        stmts(h.body)
+                    stmts(st.orelse); stmts(st.finalbody)
+                else:
+                    expr(st)
+        stmts(self.fn.body)
+        return out
+
     def translate(self, lean_name, origin, digest):
         body = self.block(list(self.fn.body), {}, [], 1)
         # Out.fall carries the effects too
@@ -825,7 +870,9 @@ class Translator:
                 f"/-- the decorators of {origin}, outermost first -/\n"
                 f"def {lean_name}_decorators : List String := [{decos}]\n\n"
                 f"/-- the signature of {origin}: parameters in order, with the source text of their defaults -/\n"
-                f"def {lean_name}_signature : List String := [{sig}]\n")
+                f"def {lean_name}_signature : List String := [{sig}]\n\n"
+                f"/-- the calls of {origin} in the order Python makes them along the source text -/\n"
+                f"def {lean_name}_call_order : List String := [{', '.join(lean_str(x) for x in self.call_order())}]\n")
 
 
 CMP = {ast.Eq: "=", ast.NotEq: "≠", ast.Lt: "<", ast.LtE: "≤", ast.Gt: ">", ast.GtE: "≥"}
